@@ -339,6 +339,49 @@ def ob_fresh(defuzz, label):
     return run
 
 
+def ob_int_degrees(defuzz, label):
+    """activation degrees of integer type (Activated(term, 1), an integer batch): the value of a Constant term is its value, not its
+    value cast to the dtype of the degree"""
+    def run(ob):
+        fl = install()
+        set_mode("R")
+        c0, c1 = rvar("c0"), rvar("c1")
+        ins = {"c0": c0, "c1": c1}
+
+        def rbody(v):
+            return "\n".join([f"c0, c1 = {lit(v['c0'])}, {lit(v['c1'])}", f"D = fl.{defuzz}()",
+                              "fo = fl.Aggregated('out', 0.0, 1.0, None, [fl.Activated(fl.Constant('a', c0), 1), fl.Activated(fl.Constant('b', c1), 2)])",
+                              "fb = fl.Aggregated('out', 0.0, 1.0, None, [fl.Activated(fl.Constant('a', c0), np.array([1, 0, 2])), fl.Activated(fl.Constant('b', c1), np.array([1, 3, 0]))])",
+                              f"norm = lambda w0, w1: (w0 + w1) if {defuzz == 'WeightedAverage'!r} else 1.0",
+                              "with np.errstate(all='ignore'): got, gb = D.defuzzify(fo), D.defuzzify(fb)",
+                              "exp = (1 * c0 + 2 * c1) / norm(1, 2); eb = [(w0 * c0 + w1 * c1) / norm(w0, w1) for w0, w1 in ((1, 1), (0, 3), (2, 0))]",
+                              "verdict(not same(got, exp, 1e-9) or not same(gb, eb, 1e-9), 'integer degrees: %r and %r, documented %r and %r' % (got, gb, exp, eb))"])
+
+        rp = replay_fn(PROPERTY, label, rbody, key=None)
+
+        def body():
+            D = getattr(fl, defuzz)()
+            fo = fl.Aggregated("out", 0.0, 1.0, None, [fl.Activated(fl.Constant("a", c0), 1), fl.Activated(fl.Constant("b", c1), 2)])
+            fb = fl.Aggregated("out", 0.0, 1.0, None, [fl.Activated(fl.Constant("a", c0), np.array([1, 0, 2])), fl.Activated(fl.Constant("b", c1), np.array([1, 3, 0]))])
+            return D.defuzzify(fo), D.defuzzify(fb)
+
+        for p in ob.paths([], body):
+            if p.exc is not None:
+                ob.unexpected([], p, label, ins, rp)
+                continue
+            got, gb = p.result
+            norm = (lambda a, b: a + b) if defuzz == "WeightedAverage" else (lambda a, b: 1)
+            ge, be = elements(got), elements(gb)
+            claims = [z3.BoolVal(len(ge) == 1 and len(be) == 3)]
+            if len(ge) == 1 and len(be) == 3:
+                claims.append(is_val(ge[0], (c0.v + 2 * c1.v) / norm(1, 2)))
+                for x, (w0, w1) in zip(be, ((1, 1), (0, 3), (2, 0))):
+                    claims.append(is_val(x, (w0 * c0.v + w1 * c1.v) / norm(w0, w1)))
+            ob.prove([], p, z3.And(*claims), label, ins, rp)
+
+    return run
+
+
 def ob_reuse_kinds(defuzz, order, label):
     """ONE Automatic defuzzifier object used on fuzzy outputs of different kinds (as when the object is shared by output variables):
     the kind is inferred from the fuzzy output at hand every time, and the object's own type stays Automatic"""
@@ -520,6 +563,7 @@ def _obligations(tier, seed):
         add(d, "Automatic", ("Constant", "Triangle"), (0, 1), None)
     for d in defs:
         obs.append((f"{d}/fresh-results", ob_fresh(d, f"{d}/fresh-results")))
+        obs.append((f"{d}/integer-degrees", ob_int_degrees(d, f"{d}/integer-degrees")))
         for order in (("ts", "tk", "ts"), ("tk", "ts")):
             nm = f"{d}/one-object/{'-'.join(order)}"
             obs.append((nm, ob_reuse_kinds(d, order, nm)))
